@@ -141,7 +141,7 @@ func runSeq(owners ...string) func(t *testing.T, scAny any, trace bool) *Outcome
 					simrt.Sleep(2 * time.Millisecond)
 				}
 				r.cl.trace = r.cl.trace[:0]
-				r.inj0 = r.w.FS.Injected()
+				r.inj0, r.stall0 = r.w.FS.Injected(), r.w.FS.Stalled()
 				r.lastWrite = nil
 				hr0 := r.h(op.H)
 				r.step(i-npro, op)
@@ -807,6 +807,14 @@ func genC02(r *simrt.Rand, tier string) any {
 		if f.Op == "Lstat" || f.Op == "" {
 			f.Nth = 1 + r.Int(150)
 		}
+		if r.Pct(25) {
+			// a slow backend instead of a failing one: the mutating call takes longer than the procedure's own
+			// time-out (15-20 s) but less than the request time-out (30 s) - and does its work
+			f = simfs.Fault{Op: []string{"Rename", "Remove", "Create", "Mkdir", "Symlink"}[r.Int(5)], Nth: 1 + r.Int(5), Kind: []string{"stall", "stall_ret"}[r.Int(2)], Stall: time.Duration(16+r.Int(12)) * time.Second}
+			if f.Op == "Rename" {
+				f.Stall = time.Duration(21+r.Int(7)) * time.Second
+			}
+		}
 		sc.Faults = append(sc.Faults, f)
 	}
 	return sc
@@ -815,7 +823,7 @@ func genC02(r *simrt.Rand, tier string) any {
 func init() {
 	Register(&Prop{
 		ID: "C02", Level: "exploration",
-		Rule:    "one case = one sequential history of 15-60 LOOKUP/CREATE/MKDIR/SYMLINK/REMOVE/RMDIR/RENAME/READDIR(PLUS)/GETATTR/READLINK ops over a 5-letter alphabet, depth <=3, through handles from earlier replies (including handles of removed/renamed objects, non-directory and invalid names), run in lock-step against two real servers in one bubble: one with the drawn attribute/negative/directory cache configuration and think times on the fake clock, one with caches at minimal TTL and size. Oracles per operation: success/failure equals the POSIX tree model, backend tree == model tree, listings == model children, the two servers' decoded replies are equal (timestamps excluded); 25% of the cases instead inject one backend error (EIO/ENOSPC/EACCES on create, mkdir, symlink, remove, rename, chmod, chown, close, lstat, ...) into some request of a single server: a faulted request that fails must leave the backend tree exactly as it was, one that succeeds must have its complete effect, and every later request is judged exactly. non-trivial = >=1 negative LOOKUP later made positive, >=1 READDIR after a mutation of that directory, >=1 REMOVE/RMDIR/RENAME of something previously looked up; distinct by event digest",
+		Rule:    "one case = one sequential history of 15-60 LOOKUP/CREATE/MKDIR/SYMLINK/REMOVE/RMDIR/RENAME/READDIR(PLUS)/GETATTR/READLINK ops over a 5-letter alphabet, depth <=3, through handles from earlier replies (including handles of removed/renamed objects, non-directory and invalid names), run in lock-step against two real servers in one bubble: one with the drawn attribute/negative/directory cache configuration and think times on the fake clock, one with caches at minimal TTL and size. Oracles per operation: success/failure equals the POSIX tree model, backend tree == model tree, listings == model children, the two servers' decoded replies are equal (timestamps excluded); 25% of the cases instead inject one backend error (EIO/ENOSPC/EACCES on create, mkdir, symlink, remove, rename, chmod, chown, close, lstat, ...) or one slow mutating backend call (16-28 s: longer than the procedure's own time-out, shorter than the request time-out) into some request of a single server: a faulted request that fails must leave the backend tree exactly as it was, one that succeeds must have its complete effect, and every later request is judged exactly. non-trivial = >=1 negative LOOKUP later made positive, >=1 READDIR after a mutation of that directory, >=1 REMOVE/RMDIR/RENAME of something previously looked up; distinct by event digest",
 		Gen:     genC02,
 		New:     func() any { return &SeqScn{} },
 		Run:     runSeq("C02."),
